@@ -120,3 +120,35 @@ Proof.
   apply run_inv; [apply inv_init| |constructor; [exact Logic.I|exact Ht]].
   cbn [forallb is_restart negb andb]. exact Hn.
 Qed.
+
+(** 6'. payouts over histories WITH restarts and refreshes *)
+Lemma payout_increasing_all h :
+  Forall restart_lists_ok h -> Forall threshold_pos h ->
+  emits_above (fun _ => None) (fst (run HM false (init_state HM) h)).
+Proof.
+  intros Hr Ht. rewrite (proj2 (reach_sim h)). apply run_inv_all; auto. apply inv_init.
+Qed.
+
+(** 7. the cash-out receipt path and the cashed records *)
+Lemma step_cashout_V v p ck rc bs tr bp :
+  snd (step VM false v (OCashout p ck rc bs tr bp)) = snd (cashout VM v p ck rc bs tr bp).
+Proof. cbn [step]. destruct (cashout VM v p ck rc bs tr bp). reflexivity. Qed.
+
+Lemma cashout_cashed_record h p ck rc bs tr bp :
+  let s := hreach h in let s' := snd (step HM false s (OCashout p ck rc bs tr bp)) in
+  (forall a' t, get p (m_pb s) <> Some a' -> get a' (recs s) = Some t ->
+     exists t', get a' (recs s') = Some t' /\ nread (hp s') (f_rchain t') = nread (hp s) (f_rchain t)) /\
+  (forall a b x, get p (m_pb s) = Some a -> ck = true -> rc = Some 1 -> bs = Some b -> snd tr = Some x ->
+     exists t', get a (recs s') = Some t' /\ nread (hp s') (f_rchain t') = x) /\
+  (ck = false \/ rc <> Some 1 \/ bs = None ->
+     forall a t, get a (recs s) = Some t ->
+       exists t', get a (recs s') = Some t' /\ nread (hp s') (f_rchain t') = nread (hp s) (f_rchain t)).
+Proof.
+  cbn zeta. destruct (reach_sim h) as [S _]. destruct (step_sim _ _ (OCashout p ck rc bs tr bp) S) as (_ & S' & _).
+  rewrite step_cashout_V in S'. destruct (cashout_V (vreach h) p ck rc bs tr bp) as (C1 & C2 & C3). cbn zeta in *.
+  assert (Ep : m_pb (hreach h) = m_pb (vreach h)) by apply S. rewrite Ep.
+  split; [|split].
+  - intros a' t Hne G. eapply rchain_v2h; [exact S'|]. apply C1; auto. eapply rchain_h2v; eauto.
+  - intros a b x Ga Hck Hrc Hbs Htr. eapply rchain_v2h; [exact S'|]. eapply C2; eauto.
+  - intros Hc a t G. eapply rchain_v2h; [exact S'|]. apply C3; auto. eapply rchain_h2v; eauto.
+Qed.
